@@ -242,6 +242,17 @@ example : ∃ t, inverseTensor ("a", "b") ⟨2, 2, fun i j => ((i + 2 * j + 1 : 
       ⟨2, 2, fun i j => ((i + 2 * j + 1 : Nat) : ℚ)⟩ (by decide)).mpr
     ⟨rfl, by simp [Matrix.det_fin_two]; norm_num⟩
 
+/-- Scaling the input by a non-zero factor keeps the determinant non-zero: this is what the float
+    part of the correspondence uses (a well-conditioned integer matrix times `10^±k` must still
+    have an inverse; the float results themselves are only compared with the specification). -/
+theorem scaling_keeps_invertibility (n : Nat) (A : _root_.Matrix (Fin n) (Fin n) K) (c : K)
+    (hc : c ≠ 0) : (c • A).det ≠ 0 ↔ A.det ≠ 0 := by
+  rw [Matrix.det_smul]
+  simp [hc]
+
+/-- Non-vacuity: `10⁻⁹ ≠ 0` in ℚ. -/
+example : ((10 : ℚ) ^ 9)⁻¹ ≠ 0 := by norm_num
+
 end Inverse
 
 /-! ### The entry points agree; shape and names; no panic (every size, every element type) -/
